@@ -1,14 +1,14 @@
 PROPERTY = "C15"
 ENTRY = {
         "text": "Two TLA+ specifications written from the statement. RuleList.tla (parser): list texts are token sequences (rule atoms, white space, "
-                "comment/title starters, #-lines that are not plain comments (##, #@#, #?#, #$#, #%#), HTML, control bytes, VT/FF, long lines, LF/CRLF/bare CR endings; "
+                "comment/title starters, #-lines that are not plain comments (##, #@#, #?#, #$#, #%#), HTML, control bytes, VT/FF, long lines incl. rule lines of exactly 4095/4096/4097/~5K/~40K/65535/65536 bytes, LF/CRLF/bare CR endings; "
                 "the parser's mode before/after the title line is explicit state and the treatment of such #-lines a policy that must not depend on it); "
                 "TLC enumerates every text of up to 3 lines over 18 line shapes and up to 4 lines over 10 shapes, checks NormalFormIsFixedPoint / NormalIsClean / the enumerated failures on the spec, and every text is replayed into the real "
                 "rulelist.Parser (admissible outcome, stored bytes = conc(Normal), count, and re-parse of the stored bytes gives the same count, checksum and bytes). "
                 "FilterRefresh.tla (refresh state machine: per list file/count/checksum/rules in force; forced block|allow refresh, scheduled refresh of any due set, restart; "
                 "per request one of ok(text), undetectable unframed cut, connection error, non-200, cut before/after headers, mid-line, at a line boundary with Content-Length or chunked framing, "
                 "HTML, binary, missing/directory local file): FailureIsNoOp, UnchangedChecksumNotRewritten, SuccessStoresNormalForm, RestartChangesNothing (the stored file is re-parsed: same count, same checksum) asserted on every transition; "
-                "every transition is emitted as an edge and edge-covering tours are walked on real DNSFilters against a scripted httptest list server, comparing after every step the file "
+                "a third universe serves lists with rule lines of 4095..65535 bytes between short rules through the real download-and-store path; every transition is emitted as an edge and edge-covering tours are walked on real DNSFilters against a scripted httptest list server, comparing after every step the file "
                 "bytes, whether the file was replaced (inode), rules_count from the real status handler, whether the remembered checksum changed, and the rules in force via CheckHost. Random larger texts and random histories over "
                 "four lists are recorded and validated by TraceRuleList.tla / TraceFilterRefresh.tla.",
         "design_ref": "DESIGN.md section 4 C15",
